@@ -8,10 +8,13 @@
 // A row is a history of one per-message delivery object of mx_auth.dane: round k
 // is MX candidate mx<k>.example.invalid with its own TLSA RRset, DNS answers and
 // certificate chain.
+//
 //   - one round, lookup ok/notfound/error: the outcome of the lookup is injected and
 //     the real CheckConn (verifyDANE) judges the connection;
+//
 //   - rounds with lookup "wire": the RRset is published (signed zone) and reaches the
 //     code through the real PrepareConn / discoverTLSA / resolver conversion;
+//
 //   - rounds with lookup "disc": the real PrepareConn (discoverTLSA against a DNS
 //     server on loopback) and CheckConn, all rounds on the SAME delivery object.
 //     mode "seq": PrepareConn(k), CheckConn(k), then round k+1.
@@ -20,6 +23,17 @@
 //     waits (on the lookup-result holders, no timer) until that late lookup has
 //     delivered its result wherever the code puts it; then MX 2's answers are
 //     released and CheckConn(2) is called.
+//
+//   - one round, lookup "target": a delivery attempt of the real remote target (MX lookup,
+//     attemptMX, the target's own TLS client against a scripted SMTP server presenting
+//     the round's chain): the connection state mx_auth.dane sees is the one connect()
+//     produced (verified first handshake, unauthenticated retry, plaintext fallback).
+//
+// Data dimensions the model is independent of (Dane.tla says so; they only choose how the
+// same situation is spelled towards the real code): disc.af (MX host with A / AAAA / both),
+// disc.rc (response code of a failed lookup), disc.srv (a first resolver that fails every
+// query), disc.hops (length of the alias chain), nt (how a target round came to have no TLS),
+// the names on the wrong-name leaf.
 //
 // The certificate chains are generated here with crypto/x509 (root CA ->
 // intermediate CA -> per-MX leaf; an expired leaf; a leaf for another host name; an
@@ -77,6 +91,11 @@ const holdCap = 20 * time.Second
 
 func mxName(k int) string { return fmt.Sprintf("mx%d.example.invalid", k) }
 
+const (
+	rcptDomain = "example.invalid"    // the recipient domain CheckConn is told in discovery rows
+	clientName = "client.example.org" // the host name of the remote target in target rows
+)
+
 type Rec struct {
 	U     int    `json:"u"`
 	S     int    `json:"s"`
@@ -90,6 +109,38 @@ type Disc struct {
 	Cname  string `json:"cname"`  // "-" | secure | initial | insecure: the MX name is a CNAME
 	Ctlsa  string `json:"ctlsa"`  // TLSA answer at the canonical name
 	Cmatch string `json:"cmatch"` // the DANE-EE record published there matches this certificate
+	// Af: how the address of the MX host (of the canonical name behind a CNAME) is published:
+	// "a" | "aaaa" (IPv6-only host: the A query gets a no-data answer) | "both"; "-"/"" = "a".
+	// The model (Dane.tla) is independent of it.
+	Af string `json:"af"`
+	// spellings of the DNS side the model is independent of (Dane.tla DiscX):
+	Rc   string `json:"rc"`   // response code of a "servfail" answer: servfail | refused | notimp | formerr
+	Srv  string `json:"srv"`  // "failover": two resolvers configured, the first one fails every query
+	Hops int    `json:"hops"` // CNAME rows: length of the alias chain (2: mx -> alias -> canonical name)
+}
+
+func (d Disc) failCode() int {
+	switch d.Rc {
+	case "refused":
+		return miekgdns.RcodeRefused
+	case "notimp":
+		return miekgdns.RcodeNotImplemented
+	case "formerr":
+		return miekgdns.RcodeFormatError
+	}
+	return miekgdns.RcodeServerFailure
+}
+
+// addrZone is the zone of a host name that has addresses of the given family.
+func addrZone(ad bool, af string) mockdns.Zone {
+	z := mockdns.Zone{AD: ad}
+	if af != "aaaa" {
+		z.A = []string{"127.0.0.1"}
+	}
+	if af == "aaaa" || af == "both" {
+		z.AAAA = []string{"::1"}
+	}
+	return z
 }
 
 type Round struct {
@@ -100,6 +151,9 @@ type Round struct {
 	Disc   Disc   `json:"disc"`
 	Mxl    string `json:"mxl"` // MX level established by the policies before mx_auth.dane
 	Tll    string `json:"tll"` // TLS level established before mx_auth.dane
+	// Nt (target rounds without a handshake): "strip" = STARTTLS not offered, "break" = offered,
+	// the handshake fails and the target falls back to plaintext. The model is independent of it.
+	Nt string `json:"nt"`
 }
 
 func (r Round) mxLevel() module.MXLevel {
@@ -205,7 +259,11 @@ func (p *pki) chains(mx string) map[string][]*x509.Certificate {
 	p.serial += 3
 	leaf, k1 := mkCert(t, mx, false, []string{mx}, long0, now.Add(365*24*time.Hour), p.inter, p.interKey, p.serial)
 	expired, k2 := mkCert(t, mx, false, []string{mx}, now.Add(-2*365*24*time.Hour), now.Add(-365*24*time.Hour), p.inter, p.interKey, p.serial+1)
-	wrong, k3 := mkCert(t, "other.example.invalid", false, []string{"other.example.invalid"}, long0, now.Add(365*24*time.Hour), p.inter, p.interKey, p.serial+2)
+	// "wrong name" = any name but the MX host name (harness-only data: the model only knows that the
+	// leaf is not valid for the MX name): the names a client has at hand besides the MX name are all
+	// on it - the recipient domains used by the rows and the client's own host name
+	wrong, k3 := mkCert(t, "other.example.invalid", false, []string{"other.example.invalid", rcptDomain, idnDomain, clientName},
+		long0, now.Add(365*24*time.Hour), p.inter, p.interKey, p.serial+2)
 	p.keys[leaf], p.keys[expired], p.keys[wrong] = k1, k2, k3
 	c := map[string][]*x509.Certificate{
 		"leaf":          {leaf},
@@ -378,15 +436,32 @@ type nopLogger struct{}
 func (nopLogger) Printf(string, ...interface{}) {}
 
 type discEnv struct {
-	mock  *mockdns.Server
-	srv   *miekgdns.Server
-	res   *dns.ExtResolver
-	p     *pki
-	zmu   sync.RWMutex            // the mock server reads the map while answering
-	zones map[string]mockdns.Zone // shared with the mock server; replaced between rows
+	mock    *mockdns.Server
+	srv     *miekgdns.Server
+	res     *dns.ExtResolver
+	resFail *dns.ExtResolver // the same with a failing first server
+	p       *pki
+	zmu     sync.RWMutex            // the mock server reads the map while answering
+	zones   map[string]mockdns.Zone // shared with the mock server; replaced between rows
+
+	rcodes map[string]int // (under zmu) query name -> response code of its scripted lookup failure
+
+	down    *miekgdns.Server // a resolver that fails every query (first server of a "failover" configuration)
+	servers [2]string        // its address, the address of the real one
 
 	mu   sync.Mutex
 	held map[string]chan struct{} // MX name -> closed when its answers may go out
+}
+
+// resolver returns the resolver for a row: configured with the real server only, or with the
+// failing server in front of it. Both servers listen on the same port of different loopback
+// addresses (the client configuration has one port for all servers). Two fixed objects: lookups
+// of an earlier row may still be in flight, so nothing is mutated between rows.
+func (e *discEnv) resolver(failover bool) *dns.ExtResolver {
+	if failover {
+		return e.resFail
+	}
+	return e.res
 }
 
 func newDiscEnv(t *testing.T, p *pki) *discEnv {
@@ -395,28 +470,52 @@ func newDiscEnv(t *testing.T, p *pki) *discEnv {
 	if err != nil {
 		t.Fatal(err)
 	}
-	e := &discEnv{mock: mock, zones: zones, held: map[string]chan struct{}{}, p: p}
-	pc, err := net.ListenPacket("udp4", "127.0.0.1:0")
-	if err != nil {
-		t.Fatal(err)
+	e := &discEnv{mock: mock, zones: zones, held: map[string]chan struct{}{}, p: p, rcodes: map[string]int{}}
+	// the real server on 127.0.0.1:P, the failing one on 127.0.0.2:P
+	var pc, pc2 net.PacketConn
+	for try := 0; ; try++ {
+		pc, err = net.ListenPacket("udp4", "127.0.0.1:0")
+		if err != nil {
+			t.Fatal(err)
+		}
+		pc2, err = net.ListenPacket("udp4", fmt.Sprintf("127.0.0.2:%d", pc.LocalAddr().(*net.UDPAddr).Port))
+		if err == nil {
+			break
+		}
+		pc.Close()
+		if try > 50 {
+			t.Fatalf("HARNESS: no port free on both loopback addresses: %v", err)
+		}
 	}
 	e.srv = &miekgdns.Server{PacketConn: pc, Handler: miekgdns.HandlerFunc(e.serve)}
 	go e.srv.ActivateAndServe()
-	res, err := dns.NewExtResolver()
-	if err != nil {
-		t.Fatalf("NewExtResolver: %v", err)
-	}
+	e.down = &miekgdns.Server{PacketConn: pc2, Handler: miekgdns.HandlerFunc(func(w miekgdns.ResponseWriter, m *miekgdns.Msg) {
+		reply := new(miekgdns.Msg)
+		reply.SetRcode(m, miekgdns.RcodeServerFailure)
+		w.WriteMsg(reply)
+	})}
+	go e.down.ActivateAndServe()
 	addr := pc.LocalAddr().(*net.UDPAddr)
-	res.Cfg.Servers = []string{addr.IP.String()}
-	res.Cfg.Port = strconv.Itoa(addr.Port)
-	res.Cfg.Timeout = 5
-	res.Cfg.Attempts = 3
-	e.res = res
+	e.servers = [2]string{"127.0.0.2", addr.IP.String()}
+	mk := func(servers ...string) *dns.ExtResolver {
+		res, err := dns.NewExtResolver()
+		if err != nil {
+			t.Fatalf("NewExtResolver: %v", err)
+		}
+		res.Cfg.Servers = servers
+		res.Cfg.Port = strconv.Itoa(addr.Port)
+		res.Cfg.Timeout = 5
+		res.Cfg.Attempts = 3
+		return res
+	}
+	e.res = mk(e.servers[1])
+	e.resFail = mk(e.servers[0], e.servers[1])
 	return e
 }
 
 func (e *discEnv) close() {
 	e.srv.Shutdown()
+	e.down.Shutdown()
 	e.mock.Close()
 }
 
@@ -441,6 +540,14 @@ func (e *discEnv) serve(w miekgdns.ResponseWriter, m *miekgdns.Msg) {
 	}
 	e.zmu.RLock()
 	defer e.zmu.RUnlock()
+	if len(m.Question) > 0 {
+		if rc, ok := e.rcodes[strings.ToLower(m.Question[0].Name)]; ok && rc != miekgdns.RcodeServerFailure {
+			reply := new(miekgdns.Msg) // the scripted lookup failure, spelled with another response code
+			reply.SetRcode(m, rc)
+			w.WriteMsg(reply)
+			return
+		}
+	}
 	e.mock.ServeDNS(w, m)
 }
 
@@ -474,6 +581,9 @@ func (e *discEnv) clearZones() {
 	for k := range e.zones {
 		delete(e.zones, k)
 	}
+	for k := range e.rcodes {
+		delete(e.rcodes, k)
+	}
 }
 
 func (e *discEnv) addZones(mx string, in Round, recs []dns.TLSA) {
@@ -483,7 +593,7 @@ func (e *discEnv) addZones(mx string, in Round, recs []dns.TLSA) {
 	host := mx + "."
 	tname := "_25._tcp." + host
 	if in.Lookup == "wire" { // the RRset as published in a signed zone
-		in.Disc = Disc{A: "ad", TLSA: "recs_ad"}
+		in.Disc = Disc{A: "ad", TLSA: "recs_ad", Af: in.Disc.Af}
 		if len(recs) == 0 {
 			in.Disc.TLSA = "nodata"
 		}
@@ -492,7 +602,14 @@ func (e *discEnv) addZones(mx string, in Round, recs []dns.TLSA) {
 		// the MX name is an alias; the address record lives at the canonical name
 		cn := "c-" + host
 		z[host] = mockdns.Zone{AD: in.Disc.Cname != "insecure", CNAME: cn}
-		z[cn] = mockdns.Zone{AD: in.Disc.Cname == "secure", A: []string{"127.0.0.1"}}
+		if in.Disc.Hops == 2 {
+			// mx -> alias -> canonical name; beyond the zone of the MX name an alias is as
+			// secure as the canonical name
+			al := "al-" + host
+			z[host] = mockdns.Zone{AD: in.Disc.Cname != "insecure", CNAME: al}
+			z[al] = mockdns.Zone{AD: in.Disc.Cname == "secure", CNAME: cn}
+		}
+		z[cn] = addrZone(in.Disc.Cname == "secure", in.Disc.Af)
 		ctn := "_25._tcp." + cn
 		crec := dns.TLSA{Hdr: miekgdns.RR_Header{Name: ctn, Rrtype: miekgdns.TypeTLSA, Class: miekgdns.ClassINET, Ttl: 3600},
 			Usage: 3, Selector: 1, MatchingType: 1, Certificate: assoc(1, 1, e.p.certOf(mx, in.Chain, in.Disc.Cmatch))}
@@ -506,16 +623,18 @@ func (e *discEnv) addZones(mx string, in Round, recs []dns.TLSA) {
 			z[ctn] = mockdns.Zone{AD: true, TXT: []string{"not a TLSA record"}}
 		case "servfail":
 			z[ctn] = mockdns.Zone{Err: fmt.Errorf("scripted SERVFAIL")}
+			e.rcodes[strings.ToLower(ctn)] = in.Disc.failCode()
 		case "nxdomain":
 		}
 	} else {
 		switch in.Disc.A {
 		case "ad":
-			z[host] = mockdns.Zone{AD: true, A: []string{"127.0.0.1"}}
+			z[host] = addrZone(true, in.Disc.Af)
 		case "noad":
-			z[host] = mockdns.Zone{AD: false, A: []string{"127.0.0.1"}}
+			z[host] = addrZone(false, in.Disc.Af)
 		case "servfail":
 			z[host] = mockdns.Zone{Err: fmt.Errorf("scripted SERVFAIL")}
+			e.rcodes[strings.ToLower(host)] = in.Disc.failCode()
 		case "nxdomain":
 		}
 	}
@@ -534,6 +653,7 @@ func (e *discEnv) addZones(mx string, in Round, recs []dns.TLSA) {
 		z[tname] = mockdns.Zone{AD: true, TXT: []string{"not a TLSA record"}}
 	case "servfail":
 		z[tname] = mockdns.Zone{Err: fmt.Errorf("scripted SERVFAIL")}
+		e.rcodes[strings.ToLower(tname)] = in.Disc.failCode()
 	case "nxdomain":
 	}
 }
@@ -624,17 +744,18 @@ func runDelivery(t *testing.T, p *pki, e *discEnv, r Row) rowOut {
 	defer cancel()
 	e.releaseAll()
 	e.clearZones()
+	res := e.resolver(in.Rounds[0].Disc.Srv == "failover") // one resolver configuration per delivery: the first round's
 	states := make([]tls.ConnectionState, len(in.Rounds))
 	for k, rd := range in.Rounds {
 		mx := mxName(k + 1)
 		e.addZones(mx, rd, p.tlsa(mx, rd))
 		states[k] = p.state(mx, rd)
 	}
-	d := remote.VerifNewDANEDelivery(e.res)
+	d := remote.VerifNewDANEDelivery(res)
 	check := func(k int) {
 		mx := mxName(k + 1)
 		guard(&ro.Rounds[k], func() {
-			level, err := d.CheckConn(ctx, in.Rounds[k].mxLevel(), in.Rounds[k].tlsLevel(), "example.invalid", mx, states[k])
+			level, err := d.CheckConn(ctx, in.Rounds[k].mxLevel(), in.Rounds[k].tlsLevel(), rcptDomain, mx, states[k])
 			if isTimeout(err) {
 				ro.Infra = "DNS time-out talking to the mock server: " + err.Error()
 			}
@@ -706,9 +827,9 @@ const (
 )
 
 func runTarget(t *testing.T, p *pki, e *discEnv, r Row, sys bool) rowOut {
-	if sys {
-		t.Fatalf("row %d: target rows need a process without platform-trusted chains", r.ID)
-	}
+	// sys: the generated CA is a platform root of this process, so the target's first handshake
+	// (Web-PKI verification) succeeds for a valid chain and the connection reaches mx_auth.dane as
+	// "authenticated"; the probe in front of mx_auth.dane sees that, and only what DANE adds counts.
 	rd := r.In.Rounds[0]
 	ro := rowOut{Rounds: make([]out, 1)}
 	o := &ro.Rounds[0]
@@ -716,6 +837,7 @@ func runTarget(t *testing.T, p *pki, e *discEnv, r Row, sys bool) rowOut {
 	defer cancel()
 	e.releaseAll()
 	e.clearZones()
+	res := e.resolver(rd.Disc.Srv == "failover")
 	e.addZones(idnMX, rd, p.tlsa(idnMX, rd))
 	e.zmu.Lock()
 	e.zones[idnDomain+"."] = mockdns.Zone{MX: []net.MX{{Host: idnMX + ".", Pref: 10}}}
@@ -723,22 +845,23 @@ func runTarget(t *testing.T, p *pki, e *discEnv, r Row, sys bool) rowOut {
 
 	cert := p.tlsCert(idnMX, rd.Chain)
 	srv, err := scripted.NewSMTPServer(scripted.SMTPServerConfig{Name: "idnmx", Hostname: idnMX,
-		NoSTARTTLS: !rd.HS, TLS: &tls.Config{Certificates: []tls.Certificate{cert}}})
+		NoSTARTTLS: !rd.HS && rd.Nt != "break", BreakHandshake: !rd.HS && rd.Nt == "break",
+		TLS: &tls.Config{Certificates: []tls.Certificate{cert}}})
 	if err != nil {
 		t.Fatalf("row %d: SMTP server: %v", r.ID, err)
 	}
 	defer srv.Close()
 	snet := scripted.NewSMTPNet()
 	snet.Add(idnMX, srv)
-	pr := &probe{}
+	pre, pr := &probe{}, &probe{}
 	nolog := log.Logger{Out: log.NopOutput{}}
 	rt := remote.VerifRemoteNewTarget(remote.VerifRemoteConfig{
-		Hostname:    "client.example.org",
+		Hostname:    clientName,
 		Resolver:    &mockdns.Resolver{Zones: map[string]mockdns.Zone{}},
 		Dialer:      snet.DialContext,
-		ExtResolver: e.res,
+		ExtResolver: res,
 		TLSConfig:   &tls.Config{},
-		Policies:    []module.MXAuthPolicy{remote.VerifRemoteDANEPolicy(e.res, nolog), pr},
+		Policies:    []module.MXAuthPolicy{pre, remote.VerifRemoteDANEPolicy(res, nolog), pr},
 		Pool: pool.Config{MaxKeys: 100, MaxConnsPerKey: 5, MaxConnLifetimeSec: 150,
 			StaleKeyLifetimeSec: 300},
 		ConnReuseLimit:    10,
@@ -761,6 +884,9 @@ func runTarget(t *testing.T, p *pki, e *discEnv, r Row, sys bool) rowOut {
 		pr.mu.Lock()
 		called, lvl := pr.called, pr.tls
 		pr.mu.Unlock()
+		pre.mu.Lock()
+		before := pre.tls
+		pre.mu.Unlock()
 		o.Level = levelName(lvl)
 		if aerr != nil {
 			o.Err = aerr.Error()
@@ -770,7 +896,8 @@ func runTarget(t *testing.T, p *pki, e *discEnv, r Row, sys bool) rowOut {
 				ro.Infra = "time-out during the delivery attempt: " + aerr.Error()
 			}
 		}
-		o.Auth = aerr == nil && called && lvl == module.TLSAuthenticated
+		// authenticated by DANE: the level after mx_auth.dane is "authenticated" and was not before it
+		o.Auth = aerr == nil && called && lvl == module.TLSAuthenticated && before != module.TLSAuthenticated
 	})
 	if snet.TimedOut {
 		ro.Infra = "scripted SMTP network timed out"
